@@ -145,6 +145,8 @@ func uintN(size uint8, buf []byte) uint64 {
 	case 8:
 		return bmffEndian.Uint64(buf[:8])
 	default:
-		panic("error here")
+		// field sizes other than 1, 2, 4 or 8 bytes (0 = field absent,
+		// anything else is malformed) carry no value
+		return 0
 	}
 }
